@@ -370,7 +370,9 @@ func (e *engine) CompileModule(_ context.Context, module *wasm.Module, listeners
 	}
 
 	funcs := make([]compiledFunction, len(module.FunctionSection))
-	irCompiler, err := newCompiler(e.enabledFeatures, callFrameStackSize, module, ensureTermination)
+	// The module is validated against the features of its own runtime already, and this engine may be shared
+	// through a compilation cache with runtimes of other features: decode block types as the compiler engine does.
+	irCompiler, err := newCompiler(e.enabledFeatures|api.CoreFeaturesV2, callFrameStackSize, module, ensureTermination)
 	if err != nil {
 		return err
 	}
